@@ -99,6 +99,10 @@ void nsim_watch_clear (int slot);
 void nsim_watch_arm_on_store (int slot, const char *func);  /* the calling fibre's next atomic store made inside a function whose name contains func
                                                                starts watch `slot` on the stored-to word (that store itself is not counted) */
 
+/* ---- the thread-specific-data model, for client keys made by the harness (the simulated code reaches it through the seam) ---- */
+int nsim_sys_pthread_key_create (unsigned *key, void (*dtor) (void *));
+int nsim_sys_pthread_setspecific (unsigned key, const void *v);
+
 /* ---- happens-before edges created by the harness itself ---- */
 void nsim_hb_release (int chan);
 void nsim_hb_acquire (int chan);
